@@ -14,7 +14,11 @@ use warp_core::{
 pub enum Class {
     Node,
     Edge,
+    /// α attachment slot of node `idx`
     Att,
+    /// β attachment slot of EDGE `idx` (edge-owned; a different resource from every node slot even
+    /// when the raw ids coincide)
+    AttEdge,
 }
 
 impl Class {
@@ -23,6 +27,7 @@ impl Class {
             Class::Node => "node",
             Class::Edge => "edge",
             Class::Att => "att",
+            Class::AttEdge => "eatt",
         }
     }
 }
@@ -94,6 +99,8 @@ impl AbsFp {
             let inst: u8 = parts[0].strip_prefix('i')?.parse().ok()?;
             let (cls, idx) = if let Some(x) = parts[1].strip_prefix("node") {
                 (Some(Class::Node), x)
+            } else if let Some(x) = parts[1].strip_prefix("eatt") {
+                (Some(Class::AttEdge), x)
             } else if let Some(x) = parts[1].strip_prefix("edge") {
                 (Some(Class::Edge), x)
             } else if let Some(x) = parts[1].strip_prefix("att") {
@@ -246,7 +253,9 @@ pub fn ids() -> &'static Ids {
             make_node_id("c03/S0"),
             make_node_id("c03/S1"),
         ],
-        edges: [make_edge_id("c03/E0"), make_edge_id("c03/E1")],
+        // E1 deliberately has the SAME raw 32 bytes as node X: a node claim, an edge claim and the
+        // two attachment owners built on that id are four different resources
+        edges: [make_edge_id("c03/E0"), EdgeId(make_node_id("c03/X").0)],
         root: make_node_id("root"),
     })
 }
@@ -341,6 +350,18 @@ pub fn build_real(f: &AbsFp, mask: Mask) -> Footprint {
                 }
                 if c.w {
                     fp.e_write.insert(k);
+                }
+            }
+            Class::AttEdge => {
+                let k = AttachmentKey::edge_beta(EdgeKey {
+                    warp_id,
+                    local_id: t.edges[c.idx as usize],
+                });
+                if c.r {
+                    fp.a_read.insert(k);
+                }
+                if c.w {
+                    fp.a_write.insert(k);
                 }
             }
             Class::Att => {
